@@ -120,7 +120,7 @@ func checkGenericUUID(b []byte, tag string) {
 			var u2 uuid.UUID
 			n2, err2 := u2.Unmarshal(append(append([]byte{}, b...), b[3], 0xEE, b[0]))
 			ev(1)
-			if err2 != nil || n2 != 16 || u2 != u {
+			if err2 != nil || n2 != 16 || !mon.ExportedEqual(u2, u) {
 				r.Violation("uuid.UUID.Unmarshal:followed-by-more", fmt.Sprintf("Unmarshal(%x followed by 3 more bytes) = %d,%v, value %+v; alone it gives 16 and %+v", b, n2, err2, u2, u), cs)
 			}
 		}
@@ -584,7 +584,7 @@ func checkGUID(b []byte, tag string, useAlias bool, full bool, pick uint32) {
 			g.FromRawBytes(b)
 		}
 		ev(1)
-		if !g.Equal(wantG) || *g != *wantG {
+		if !g.Equal(wantG) || !mon.ExportedEqual(*g, *wantG) {
 			r.Violation("guid.FromRawBytes:field:"+firstDiff(g, wantG), fmt.Sprintf("FromRawBytes(%x) = %s want %s", b, guidFields(g), guidFields(wantG)), cs)
 			return
 		}
@@ -874,6 +874,7 @@ func main() {
 	}
 	refusals()
 	textMutations()
+	uuidTextMutations()
 	// NewGUID: library-generated values also round-trip
 	for i := 0; i < 1000; i++ {
 		g := guid.NewGUID()
